@@ -313,6 +313,11 @@ pub fn run(ctx: &mut Ctx, c: &Case) -> (String, String) {
             let r = catch_unwind(AssertUnwindSafe(|| hist_op(c)));
             (r.unwrap_or_else(|_| "Panic".to_string()), "-".to_string())
         }
+        // ---- C17: allocation probe
+        "alloc" => {
+            let r = catch_unwind(AssertUnwindSafe(|| alloc_op(ctx, c)));
+            (r.unwrap_or_else(|_| "Panic".to_string()), "-".to_string())
+        }
         // ---- memmem
         "mm" => {
             let x = c.bytes("x");
@@ -618,4 +623,107 @@ pub fn hist_op(c: &Case) -> String {
         }
     }
     outs.join(";")
+}
+
+/// `alloc what=<kind> x=.. h=..`: prints `<allocations>:<result>`.
+pub fn alloc_op(ctx: &mut Ctx, c: &Case) -> String {
+    use crate::probe::count;
+    use memchr::memmem;
+    let x = c.bytes("x");
+    let h = c.bytes("h");
+    let hs = ctx.hay.place(&h, c.num("a"), Flush::None);
+    let xs = ctx.needle.place(&x, 0, Flush::None);
+    let rk = ranker(c.str("rank"));
+    let cfg = c.str("cfg").to_string();
+    let b1 = x.get(0).copied().unwrap_or(0);
+    let b2 = x.get(1).copied().unwrap_or(1);
+    let b3 = x.get(2).copied().unwrap_or(2);
+    // warm up lazily initialised state (dispatch pointers, thread locals) outside the measured region
+    let _ = memchr::memchr(b1, hs);
+    let _ = memchr::memrchr(b1, hs);
+    let _ = memchr::memchr2(b1, b2, hs);
+    let _ = memchr::memrchr2(b1, b2, hs);
+    let _ = memchr::memchr3(b1, b2, b3, hs);
+    let _ = memchr::memrchr3(b1, b2, b3, hs);
+    let _ = memchr::memchr_iter(b1, hs).count();
+    let fmt = |n: usize, r: usize| format!("{}:{}", n, r);
+    let enc = |o: Option<usize>| o.map(|v| v + 1).unwrap_or(0);
+    match c.str("what") {
+        "memchr" => { let (n, r) = count(|| enc(memchr::memchr(b1, hs))); fmt(n, r) }
+        "memrchr" => { let (n, r) = count(|| enc(memchr::memrchr(b1, hs))); fmt(n, r) }
+        "memchr2" => { let (n, r) = count(|| enc(memchr::memchr2(b1, b2, hs))); fmt(n, r) }
+        "memrchr2" => { let (n, r) = count(|| enc(memchr::memrchr2(b1, b2, hs))); fmt(n, r) }
+        "memchr3" => { let (n, r) = count(|| enc(memchr::memchr3(b1, b2, b3, hs))); fmt(n, r) }
+        "memrchr3" => { let (n, r) = count(|| enc(memchr::memrchr3(b1, b2, b3, hs))); fmt(n, r) }
+        "iter" => {
+            let (n, r) = count(|| {
+                let mut it = memchr::memchr2_iter(b1, b2, hs);
+                let mut acc = 0usize;
+                while let Some(i) = it.next() { acc = acc.wrapping_add(i); if let Some(j) = it.next_back() { acc ^= j; } }
+                acc.wrapping_add(memchr::memchr_iter(b1, hs).count())
+            });
+            fmt(n, r)
+        }
+        "mm_find" => { let (n, r) = count(|| enc(memmem::find(hs, xs))); fmt(n, r) }
+        "mm_rfind" => { let (n, r) = count(|| enc(memmem::rfind(hs, xs))); fmt(n, r) }
+        "mm_find_iter" => { let (n, r) = count(|| memmem::find_iter(hs, xs).fold(0usize, |a, i| a.wrapping_add(i + 1))); fmt(n, r) }
+        "mm_rfind_iter" => { let (n, r) = count(|| memmem::rfind_iter(hs, xs).fold(0usize, |a, i| a.wrapping_add(i + 1))); fmt(n, r) }
+        "finder_new_find" => {
+            // construction from a borrowed needle + search, both measured
+            let (n, r) = count(|| {
+                let f = build_finder(&cfg, rk, xs);
+                let r1 = enc(f.find(hs));
+                let r2 = f.find_iter(hs).count();
+                r1.wrapping_mul(31).wrapping_add(r2)
+            });
+            fmt(n, r)
+        }
+        "rfinder_new_rfind" => {
+            let (n, r) = count(|| {
+                let f = memmem::FinderRev::new(xs);
+                let r1 = enc(f.rfind(hs));
+                let r2 = f.rfind_iter(hs).count();
+                r1.wrapping_mul(31).wrapping_add(r2)
+            });
+            fmt(n, r)
+        }
+        #[cfg(feature = "alloc")]
+        "into_owned_borrowed" => {
+            let f = memmem::Finder::new(xs);
+            let (n, f2) = count(|| f.into_owned());
+            fmt(n, enc(f2.find(hs)))
+        }
+        #[cfg(feature = "alloc")]
+        "owned_then_search" => {
+            // an owned finder searches and iterates without further allocation
+            let f = memmem::Finder::new(xs).into_owned();
+            let fr = memmem::FinderRev::new(xs).into_owned();
+            let (n, r) = count(|| enc(f.find(hs)).wrapping_add(f.find_iter(hs).count()).wrapping_add(enc(fr.rfind(hs))));
+            fmt(n, r)
+        }
+        #[cfg(feature = "alloc")]
+        "shiftor_new" => {
+            let (n, f) = count(|| all::shiftor::Finder::new(xs));
+            fmt(n, f.map(|f| enc(f.find(hs))).unwrap_or(usize::MAX))
+        }
+        #[cfg(feature = "alloc")]
+        "shiftor_find" => match all::shiftor::Finder::new(xs) {
+            None => "0:unsupported".to_string(),
+            Some(f) => { let (n, r) = count(|| enc(f.find(hs))); fmt(n, r) }
+        },
+        "blocks" => {
+            // Two-Way, Rabin-Karp, packed pair: construction and search
+            let (n, r) = count(|| {
+                let tw = all::twoway::Finder::new(xs);
+                let twr = all::twoway::FinderRev::new(xs);
+                let rk = all::rabinkarp::Finder::new(xs);
+                let rkr = all::rabinkarp::FinderRev::new(xs);
+                let mut acc = enc(tw.find(hs, xs)) ^ enc(twr.rfind(hs, xs)) ^ enc(rk.find(hs, xs)) ^ enc(rkr.rfind(hs, xs));
+                if let Some(p) = all::packedpair::Finder::new(xs) { acc ^= enc(p.find_prefilter(hs)); }
+                acc
+            });
+            fmt(n, r)
+        }
+        _ => "BadCase".to_string(),
+    }
 }
